@@ -326,6 +326,192 @@ Definition phase_one (p o : sx) : option (sx * bool) :=
 
 Definition c11_phases_run : sx -> sx -> verdict := pairs_run phase_one.
 
+(* ---- which = 8: requests on one plugin under a controller whose In BLOCKS BEFORE IT READS ITS BYTES (back-pressure),
+   driven by a sequential script: case = ((procs) (request ...) (step ...)), request = (gz (read ...) (park ...)).
+   [gz] = 1: the reads are the gzip members of the body (all of them bytes); [park] = the In calls of the request at
+   which the controller blocks before looking at the bytes; [step] = which request runs next / -1 = every buffer in the
+   plugin's pools is overwritten; [procs] = GOMAXPROCS of the run.  obs = one ((event ...) status) per request, the
+   events being what the controller reads AFTER the gate of that In call was released.
+   None of procs / gz / park / step may matter: every request behaves as if alone ([c11_model] of its reads) and the
+   property's predicate [c11_pred] is evaluated per request on the bytes seen after the release. *)
+Definition gated_reads_ok (gz : Z) (reads : sx) : bool :=
+  if Z.eqb gz 1
+  then match reads with
+       | SL l => forallb (fun r => match r with SB _ => true | _ => false end) l
+       | _ => false
+       end
+  else Z.eqb gz 0.
+
+Definition all_ints (l : list sx) : bool := forallb (fun r => match r with SZ _ => true | _ => false end) l.
+
+Definition gated_one (r o : sx) : option (sx * bool) :=
+  match r with
+  | SL [SZ gz; reads; SL parks] =>
+      if gated_reads_ok gz reads && all_ints parks
+      then match c11_model reads with
+           | Some m => Some (m, c11_pred reads o)
+           | None => None
+           end
+      else None
+  | _ => None
+  end.
+
+Definition c11_gated_run (case obs : sx) : verdict :=
+  match case with
+  | SL [SL cfg; SL reqs; SL steps] =>
+      if all_ints cfg && all_ints steps then pairs_run gated_one (SL reqs) obs else BadCase
+  | _ => BadCase
+  end.
+
+(* ---- buffer-level model: pooled buffers, views handed to a controller that reads them LATER --------------------------
+   The value-level model above cannot exhibit aliasing: there an event IS a byte string.  In the Go code an event is a
+   VIEW (a slice) of the request's read buffer or of its carry-over buffer, both taken from / returned to sync.Pools
+   that all requests of the plugin share, and controller.In may look at the view arbitrarily late before it returns
+   (the real pipeline.In first waits for a free event).  This machine has a shared heap of buffers, one free list, and
+   per request the two local variables readBuff (RB) / eventBuff (EB).  A request is a list of operations:
+     OGet s          newReadBuff / newEventBuffs: a buffer is taken out of the pool (ANY of the pooled ones, or a new one:
+                     sync.Pool promises nothing) and becomes the request's buffer s; the request never looks at what it
+                     held before (eventBuff is resliced to [:0], readBuff is only viewed below the n bytes just read)
+     OWrite s d      buffer s now holds d (r.Read into readBuff; append to eventBuff, growth included; eventBuff[:0])
+     OIn s off len   controller.In(buf_s[off:off+len]) is called and blocks
+     ORet            ... the controller reads the view NOW and In returns
+     OPut s          the buffer goes back to the pool; the local variable keeps pointing at it (as in Go)
+   The machine is total: it executes ill-behaved programs too (a view of a buffer that was Put before: the seeded
+   regression), which is what makes the refutation example possible.  [own], [loc] and the bytes in [pend] are ghost
+   state for the proofs; no step depends on them. *)
+Inductive slot := RB | EB.
+Record two (A : Type) := mk2 { at_rb : A; at_eb : A }.
+Arguments mk2 {A}. Arguments at_rb {A}. Arguments at_eb {A}.
+Definition get2 {A} (t : two A) (s : slot) : A := match s with RB => at_rb t | EB => at_eb t end.
+Definition set2 {A} (t : two A) (s : slot) (x : A) : two A :=
+  match s with RB => mk2 x (at_eb t) | EB => mk2 (at_rb t) x end.
+
+Definition view (l : bytes) (off len : nat) : bytes := firstn len (skipn off l).
+
+Inductive op :=
+| OGet (s : slot) | OWrite (s : slot) (d : bytes) | OIn (s : slot) (off len : nat) | ORet | OPut (s : slot).
+
+Record rstate := mkR { prog : list op; arr : two (option nat); own : two bool; loc : two bytes;
+                       pend : option (nat * nat * nat * bytes); outs : list bytes }.
+Record mstate := mkM { heap : nat -> bytes; pool : list nat; fresh : nat; rq : nat -> rstate }.
+
+Definition upd {A} (f : nat -> A) (k : nat) (x : A) : nat -> A := fun j => if Nat.eqb j k then x else f j.
+
+(* Get: the k-th pooled buffer, or a new one when there is no k-th (an empty pool, or sync.Pool just does not find it) *)
+Definition take_pool (k : nat) (st : mstate) : nat * list nat * nat :=
+  match nth_error (pool st) k with
+  | Some b => (b, remove_nth k (pool st), fresh st)
+  | None => (fresh st, pool st, S (fresh st))
+  end.
+
+Definition exec_op (st : mstate) (r k : nat) (rs : rstate) (o : op) (rest : list op) : mstate :=
+  let skip := mkM (heap st) (pool st) (fresh st)
+                  (upd (rq st) r (mkR rest (arr rs) (own rs) (loc rs) (pend rs) (outs rs))) in
+  match o with
+  | OGet s =>
+      let '(b, pl, fr) := take_pool k st in
+      mkM (upd (heap st) b []) pl fr
+          (upd (rq st) r (mkR rest (set2 (arr rs) s (Some b)) (set2 (own rs) s true) (set2 (loc rs) s [])
+                              (pend rs) (outs rs)))
+  | OWrite s d =>
+      match get2 (arr rs) s with
+      | Some b => mkM (upd (heap st) b d) (pool st) (fresh st)
+                      (upd (rq st) r (mkR rest (arr rs) (own rs) (set2 (loc rs) s d) (pend rs) (outs rs)))
+      | None => skip
+      end
+  | OIn s off len =>
+      match get2 (arr rs) s with
+      | Some b => mkM (heap st) (pool st) (fresh st)
+                      (upd (rq st) r (mkR rest (arr rs) (own rs) (loc rs)
+                                          (Some (b, off, len, view (heap st b) off len)) (outs rs)))
+      | None => skip
+      end
+  | ORet =>
+      match pend rs with
+      | Some (b, off, len, _) =>
+          mkM (heap st) (pool st) (fresh st)
+              (upd (rq st) r (mkR rest (arr rs) (own rs) (loc rs) None (view (heap st b) off len :: outs rs)))
+      | None => skip
+      end
+  | OPut s =>
+      match get2 (arr rs) s with
+      | Some b => mkM (heap st) (b :: pool st) (fresh st)
+                      (upd (rq st) r (mkR rest (arr rs) (set2 (own rs) s false) (loc rs) (pend rs) (outs rs)))
+      | None => skip
+      end
+  end.
+
+(* a schedule: request r performs its next operation (k = which pooled buffer a Get finds), or somebody scribbles over
+   every buffer that currently sits in the pool (the harness' poison step; any foreign user of free memory) *)
+Inductive sstep := SRun (r k : nat) | SPoison (f : nat -> bytes).
+
+Definition mstep (st : mstate) (x : sstep) : mstate :=
+  match x with
+  | SRun r k =>
+      let rs := rq st r in
+      match prog rs with [] => st | o :: rest => exec_op st r k rs o rest end
+  | SPoison f =>
+      mkM (fun b => if existsb (Nat.eqb b) (pool st) then f b else heap st b) (pool st) (fresh st) (rq st)
+  end.
+
+Definition run_sched (sch : list sstep) (st : mstate) : mstate := fold_left mstep sch st.
+
+Definition rstate0 (p : list op) : rstate := mkR p (mk2 None None) (mk2 false false) (mk2 [] []) None [].
+Definition init_st (progs : nat -> list op) : mstate := mkM (fun _ => []) [] 0 (fun r => rstate0 (progs r)).
+
+(* what a request hands over when nobody interferes: its own writes, its own views *)
+Fixpoint intended (l : two bytes) (p : list op) : list bytes :=
+  match p with
+  | [] => []
+  | OGet s :: p' => intended (set2 l s []) p'
+  | OWrite s d :: p' => intended (set2 l s d) p'
+  | OIn s off len :: p' => view (get2 l s) off len :: intended l p'
+  | _ :: p' => intended l p'
+  end.
+
+(* the discipline: a buffer is written, viewed and Put only while the request holds it, it is held until In returned,
+   and a request blocked in In does nothing but return from it *)
+Fixpoint wf_from (o : two bool) (pending : bool) (p : list op) : bool :=
+  match p with
+  | [] => negb pending
+  | OGet s :: p' => negb pending && negb (get2 o s) && wf_from (set2 o s true) false p'
+  | OWrite s _ :: p' => negb pending && get2 o s && wf_from o false p'
+  | OIn s _ _ :: p' => negb pending && get2 o s && wf_from o true p'
+  | ORet :: p' => pending && wf_from o false p'
+  | OPut s :: p' => negb pending && get2 o s && wf_from (set2 o s false) false p'
+  end.
+
+(* processBulk / processChunk as such a program (http.go:524-583), positions as in the Go code:
+   readBuff[nlPos:pos] is a view of RB, a joined line and the final unterminated line are views of EB *)
+Fixpoint scan_ops (full rb : bytes) (nlPos pos : nat) (eb : bytes) : list op :=
+  match rb with
+  | [] => [OWrite EB (eb ++ view full nlPos (pos - nlPos))]
+  | c :: rb' =>
+      if N.eqb c NL then
+        (match eb with
+         | [] => [OIn RB nlPos (pos - nlPos); ORet]
+         | _ :: _ => [OWrite EB (eb ++ view full nlPos (pos - nlPos));
+                      OIn EB 0 (length (eb ++ view full nlPos (pos - nlPos))); ORet; OWrite EB []]
+         end) ++ scan_ops full rb' (S pos) (S pos) []
+      else scan_ops full rb' nlPos (S pos) eb
+  end.
+
+(* [early] = the seeded variant: both buffers go back to the pools right after EOF, before the tail is flushed *)
+Fixpoint loop_ops (early : bool) (reads : list rd) (eb : bytes) : list op :=
+  match reads with
+  | [] =>
+      (if early then [OPut EB; OPut RB] else []) ++
+      match eb with [] => [] | _ :: _ => [OIn EB 0 (length eb); ORet; OWrite EB []] end
+  | ReadErr :: _ => if early then [OPut EB; OPut RB] else []
+  | Chunk c :: rs =>
+      OWrite RB c :: scan_ops c c 0 0 eb ++ loop_ops early rs (snd (process_chunk c eb false))
+  end.
+
+Definition bulk_ops (reads : list rd) : list op :=
+  OGet RB :: OGet EB :: loop_ops false reads [] ++ [OPut EB; OPut RB].
+Definition bulk_ops_early_put (reads : list rd) : list op :=
+  OGet RB :: OGet EB :: loop_ops true reads [].
+
 (* entry point of the model runner (extracted, and evaluated by vm_compute in the cross-check):
    0 / 2 = one request (plain / gzip), 1 = source-id pool, 3 = concurrent requests, 4 = gzip request history,
    5 = one request with reads that return data together with an error, 6 = gzip histories with failing bodies,
@@ -338,6 +524,7 @@ Definition c11_entry (which : Z) (case obs : sx) : verdict :=
   | 5 => c11_ext_run case obs
   | 6 => c11_fault_run case obs
   | 7 => c11_phases_run case obs
+  | 8 => c11_gated_run case obs
   | _ => match c11_id_model case with
          | Some m => exact_verdict m obs
          | None => BadCase
